@@ -39,9 +39,12 @@ pub enum Fault {
     OutOfRange,
     NotBool,
     Handler,
+    /// the header addresses an inner node of the tree that carries no handler of that kind
+    /// (execute-level -113; the path still advances)
+    InnerNode,
 }
 
-pub const ALL_FAULTS: [Fault; 11] = [
+pub const ALL_FAULTS: [Fault; 12] = [
     Fault::BadChar,
     Fault::BadSep,
     Fault::UnknownMnem,
@@ -53,6 +56,7 @@ pub const ALL_FAULTS: [Fault; 11] = [
     Fault::OutOfRange,
     Fault::NotBool,
     Fault::Handler,
+    Fault::InnerNode,
 ];
 
 impl Fault {
@@ -659,6 +663,21 @@ impl Gen {
                         // the declaration itself fails; expectation is the normal one
                         u.expects = self.expect_call(di, args.clone());
                     }
+                    Fault::InnerNode => {
+                        // drop the last mnemonic: the header now names the parent level
+                        if u.mnems.len() < 2 {
+                            // a relative unit with one mnemonic: write the full spelling instead
+                            u.abs = true;
+                            u.mnems = self.mnems_for(di, sp, 0);
+                        }
+                        u.mnems.pop();
+                        u.lits.clear();
+                        u.payload_newline = false;
+                        if !path.is_empty() {
+                            path.pop();
+                        }
+                        u.expects = vec![Expect::Err(ErrSpec::Num(-113))];
+                    }
                 }
             }
         }
@@ -685,6 +704,18 @@ impl Gen {
             Fault::OutOfRange => dd.params.iter().any(|t| t.int_range().is_some()),
             Fault::NotBool => dd.params.iter().any(|t| *t == Ty::Bool),
             Fault::Handler => dd.fails.is_some(),
+            // every spelling minus its last mnemonic must be non-empty and must not spell a
+            // declaration of this kind (the unit is addressed absolutely or from the root only
+            // when at least one mnemonic remains to be written)
+            Fault::InnerNode => {
+                !d.is_common()
+                    && self.spellings[di].iter().all(|sp| {
+                        sp.len() >= 2 && {
+                            let m: Vec<&str> = sp[..sp.len() - 1].iter().map(|s| s.as_str()).collect();
+                            self.model.resolve(&m, d.query).is_none()
+                        }
+                    })
+            }
         }
     }
 
@@ -779,7 +810,10 @@ impl Gen {
         units.push(self.unit_for(fdi, &mut path, Some(fault), f_abs, lit, rng));
         for _ in 0..after {
             let di = self.pick_decl(rng, Some(false));
-            units.push(self.unit_for(di, &mut path, None, true, lit, rng));
+            // after a syntax-level fault nothing of the message runs, so "all" is only well
+            // defined with absolute headers; after an execution-level fault the header of
+            // the faulty unit has set the path as usual and relative units may follow
+            units.push(self.unit_for(di, &mut path, None, fault.parse_level(), lit, rng));
         }
         Some(MsgAst { units, trailing_semicolon: false })
     }
